@@ -334,6 +334,11 @@ def _rows():
         for K in FACTORS:
             rows.append((f"R{n:02d}", F, K))
             n += 1
+    # a slow reaction with a large coefficient: the raw flux is below the tolerance, the flux times the coefficient is
+    # not - what a summary shows (and thresholds) is the scaled value
+    for F, K in ((6e-7, -2.0), (-6e-7, 2.0), (6e-7, 2.0)):
+        rows.append((f"R{n:02d}", F, K))
+        n += 1
     return rows
 
 
